@@ -394,6 +394,11 @@ func (h *Hist) gen() []*TxRec {
 			}
 			msg, des := m.MsgSubmitDEs(int(cnt))
 			h.add(&ops, "de:submit", m.Acc, msg, map[string]any{"n": cnt, "des": des})
+		case cfg.DEOps && n > cfg.MaxDESize && rng.Chance(1, 3):
+			// the limit was lowered below what is already queued: nothing more fits until the queue drains
+			msg, des := m.MsgSubmitDEs(rng.Range(1, 3))
+			h.add(&ops, "de:submit", m.Acc, msg, map[string]any{"n": uint64(len(des)), "des": des})
+			h.Run.Count("de-submit-while-queue-above-lowered-limit", 1)
 		case cfg.DEOps && n == cfg.MaxDESize && rng.Chance(1, 8):
 			msg, des := m.MsgSubmitDEs(1)
 			h.add(&ops, "de:submit", m.Acc, msg, map[string]any{"n": uint64(1), "des": des})
